@@ -131,6 +131,46 @@ def _is_assign(st, name, const=None):
         (const is None or (isinstance(st.value, ast.Constant) and st.value.value == const))
 
 
+def _assembly_role(fn, e):
+    """Role of one element of the final b"".join([...]) of a frame encoder, from what the element is computed from
+    (names of locals are irrelevant): the single octets holding opcode / mask bit + length code, the struct-packed extended
+    length, the 4 mask octets, the payload."""
+    from ..core.flow import local_assignments
+    one_octet = None
+    if isinstance(e, ast.Call) and isinstance(e.func, ast.Attribute) and e.func.attr == "to_bytes" and isinstance(e.func.value, ast.Name):
+        one_octet = e.func.value.id
+    elif isinstance(e, ast.Call) and norm.text(e.func) in ("bytes", "bytearray") and e.args and isinstance(e.args[0], (ast.List, ast.Tuple)) and \
+            len(e.args[0].elts) == 1 and isinstance(e.args[0].elts[0], ast.Name):
+        one_octet = e.args[0].elts[0].id
+    if one_octet is not None:
+        srcs = {n.id for v in local_assignments(fn, one_octet) if v is not None for n in ast.walk(v) if isinstance(n, ast.Name)}
+        augs = [s for s in walk_no_defs(fn.node) if isinstance(s, ast.AugAssign) and isinstance(s.target, ast.Name) and s.target.id == one_octet]
+        srcs |= {n.id for s in augs for n in ast.walk(s.value) if isinstance(n, ast.Name)}
+        consts = {c.value for s in augs for c in ast.walk(s.value) if isinstance(c, ast.Constant)} | \
+            {c.value for v in local_assignments(fn, one_octet) if v is not None for c in ast.walk(v) if isinstance(c, ast.Constant)}
+        # the second header octet is the one into which the 7-bit length codes 126 / 127 are OR-ed
+        return "header1" if {126, 127} & consts else "header0"
+    if isinstance(e, ast.Name):
+        vals = [v for v in local_assignments(fn, e.id) if v is not None]
+        packs = [norm.text(v.args[0]).strip("'\"") for v in vals if isinstance(v, ast.Call) and norm.text(v.func) == "struct.pack" and v.args]
+        if packs and set(packs) <= {"!H", "!Q", ">H", ">Q"}:
+            return "ext-length"
+        if packs and set(packs) <= {"!I", ">I", "!L", ">L"}:
+            return "mask"
+        params = [a.arg for a in fn.node.args.args]
+        if e.id in params and e.id == "mask":
+            return "mask"
+        nonempty = [v for v in vals if not (isinstance(v, ast.Constant) and v.value == b"")]
+        if nonempty and all((isinstance(v, ast.Name) and v.id == "mask" and "mask" in params) or
+                            (isinstance(v, ast.Attribute) and "mask" in v.attr.lower()) for v in nonempty):
+            return "mask"
+        if any(isinstance(v, ast.Call) and isinstance(v.func, ast.Attribute) and v.func.attr in ("process", "tobytes") for v in vals) or \
+                any(isinstance(v, ast.Name) and v.id in ("payload",) for v in vals) or e.id == "payload":
+            return "payload"
+        return f"name({e.id})"
+    return norm.text(e)[:30]
+
+
 def rule_header_bits(ctx):
     ctx.rule("C01.2-header-bit-layout")
     # sendFrame: b0 from (fin, rsv, opcode)
@@ -150,16 +190,17 @@ def rule_header_bits(ctx):
            f"{int(bad.sum())} (fin,rsv,opcode) combinations encoded wrongly, e.g. fin={fin[np.argmax(bad)]} rsv={rsv[np.argmax(bad)]} "
            f"opcode={opc[np.argmax(bad)]} -> {int(b0[np.argmax(bad)]) if bad.any() else ''}", fn.loc())
     # final assembly order: b0, b1, el, mask, payload
-    for q, want in ((f"{WSP}.sendFrame", ["b0.to_bytes(1, 'big')", "b1.to_bytes(1, 'big')", "el", "mv", "plm"]),
-                    (f"{WSP}.beginMessageFrame", ["b0.to_bytes(1, 'big')", "b1.to_bytes(1, 'big')", "el", "mv"]),
-                    ("autobahn.websocket.protocol.PreparedMessage.__init__", ["b0.to_bytes(1, 'big')", "b1.to_bytes(1, 'big')", "el", "mask", "plm"])):
+    for q, want in ((f"{WSP}.sendFrame", ["header0", "header1", "ext-length", "mask", "payload"]),
+                    (f"{WSP}.beginMessageFrame", ["header0", "header1", "ext-length", "mask"]),
+                    ("autobahn.websocket.protocol.PreparedMessage.__init__", ["header0", "header1", "ext-length", "mask", "payload"])):
         f2 = ctx.program.func(q)
         ctx.analysed(f2)
         joins = [c for c in calls_in(f2.node) if isinstance(c.func, ast.Attribute) and c.func.attr == "join" and c.args and
                  isinstance(c.args[0], ast.List) and len(c.args[0].elts) >= 4]
         ctx.require(len(joins) == 1, f"{q}: frame assembly join not found")
-        got = [norm.text(e) for e in joins[0].args[0].elts]
-        ctx.ob(f"{q}: octet order header0, header1, ext-length, mask, payload", got == want, f"assembled as {got}", f2.loc(joins[0]))
+        got = [_assembly_role(f2, e) for e in joins[0].args[0].elts]
+        ctx.ob(f"{q}: octet order header0, header1, ext-length, mask, payload", got == want,
+               f"assembled as {got} from {[norm.text(e) for e in joins[0].args[0].elts]}", f2.loc(joins[0]))
     # beginMessageFrame b0: opcode + RSV1 only at message begin
     fn = ctx.program.func(f"{WSP}.beginMessageFrame")
     an = get_analysis(ctx)
@@ -346,35 +387,51 @@ def rule_buffer_splits(ctx):
     fn = ctx.program.func(f"{WSP}.processData")
     ctx.analysed(fn)
     g, mf, res = an.get(fn)
-    # inside-frame branch: data = self.data[:rest]; self.data = self.data[rest:]
-    take = [n for n in g.stmt_nodes() if n.kind == "stmt" and isinstance(n.ast, ast.Assign) and norm.text(n.ast.targets[0]) == "data"]
-    keep = [n for n in g.stmt_nodes() if n.kind == "stmt" and isinstance(n.ast, ast.Assign) and norm.text(n.ast.targets[0]) == "self.data"
-            and mf.at(n) is not None and ("is", "self.current_frame", ("c", None), False) in mf.at(n)]
-    ctx.require(len(take) == 2 and len(keep) == 2, "processData: payload split statements not found")
-    pairs = []
-    for t in take:
-        for k in keep:
-            if mf.at(t) is not None and mf.at(k) is not None:
-                big_t = ("lt", ("e", "buffered_len"), ("e", "rest"), False) in mf.at(t)
-                big_k = ("lt", ("e", "buffered_len"), ("e", "rest"), False) in mf.at(k)
-                if big_t == big_k:
-                    pairs.append((t, k, big_t))
-    ctx.require(len(pairs) == 2, "processData: could not pair take/keep statements by branch")
-    for t, k, big in pairs:
-        tv, kv = norm.text(t.ast.value), norm.text(k.ast.value)
-        if big:
-            ok = tv == "self.data[:rest]" and kv == "self.data[rest:]"
-            ctx.ob("processData: frame payload cut and remainder use the same index", ok, f"take `{tv}` / keep `{kv}`", fn.loc(t.ast))
-        else:
-            ok = tv == "self.data" and kv.replace('"', "'") == "b''"
-            ctx.ob("processData: short read takes the whole buffer and leaves it empty", ok, f"take `{tv}` / keep `{kv}`", fn.loc(t.ast))
-    rest = [n for n in g.stmt_nodes() if n.kind == "stmt" and isinstance(n.ast, ast.Assign) and norm.text(n.ast.targets[0]) == "rest"]
-    ok = len(rest) == 1 and norm.text(rest[0].ast.value) == "self.current_frame.length - self.current_frame_masker.pointer()"
-    ctx.ob("processData: rest = declared frame length - octets already processed", ok, f"rest = {norm.text(rest[0].ast.value) if rest else None}", fn.loc())
-    end = [n for n in g.stmt_nodes() if n.kind == "test" and norm.text(n.ast) == "self.current_frame_masker.pointer() == self.current_frame.length"]
+    # inside-frame branch: the payload cut and the kept remainder must split the buffer at the same index min(buffered, rest of frame)
+    from ..core.tiny import Tiny, Buf
+    top = [st for st in fn.node.body if isinstance(st, ast.If) and norm.text(st.test) == "self.current_frame is None"]
+    ctx.require(len(top) == 1, "processData: `if self.current_frame is None` split not found")
+    pre = fn.node.body[:fn.node.body.index(top[0])]
+    pre = [st for st in pre if not (isinstance(st, ast.Expr) and isinstance(st.value, ast.Constant))]
+    inside = top[0].orelse
+
+    def has_call(st, name):
+        return any(isinstance(c, ast.Call) and self_call(c, name) for c in ast.walk(st))
+    ctx.require(any(has_call(st, "onFrameData") for st in inside), "processData: onFrameData hand-off not found in the in-frame branch")
+    bad = []
+    cells = 0
+    try:
+        for L in range(0, 5):
+            for ptr in range(0, L + 1):
+                for B in range(0, 6):
+                    cells += 1
+                    R = L - ptr
+                    cut = min(B, R)
+                    t = Tiny({"self.data": Buf(0, B), "self.current_frame.length": L},
+                             calls={"self.current_frame_masker.pointer()": ptr, "self.current_frame_masker.process": lambda x: x})
+                    t.run(pre)
+                    r = t.run(inside, stop=lambda st: has_call(st, "onFrameData"))
+                    if r[0] != "stop":
+                        bad.append(f"buffered={B} frame rest={R}: the frame-data hand-off is not reached")
+                        continue
+                    call = [c for c in ast.walk(r[1]) if isinstance(c, ast.Call) and self_call(c, "onFrameData")][0]
+                    handed = t.ev(call.args[0])
+                    procd = [a[0] for f_, a in t.trace if f_ == "self.current_frame_masker.process"]
+                    if not (isinstance(handed, Buf) and handed == Buf(0, cut)):
+                        bad.append(f"buffered={B} frame rest={R}: payload handed on is {handed}, expected the first {cut} buffered octets")
+                    if t.env["self.data"] != Buf(cut, B):
+                        bad.append(f"buffered={B} frame rest={R}: kept remainder is {t.env['self.data']}, expected buf[{cut}:{B}] (cut and remainder disagree)")
+                    if cut > 0 and procd != [Buf(0, cut)]:
+                        bad.append(f"buffered={B} frame rest={R}: unmasker fed with {procd}, expected exactly the {cut} payload octets once")
+                    if cut == 0 and any(len(x) for x in procd):
+                        bad.append(f"buffered={B} frame rest={R}: unmasker fed although nothing belongs to the frame")
+        ctx.ob(f"processData: payload cut, unmasker input and kept remainder split the buffer at min(buffered, rest of frame) [{cells} size cells]",
+               not bad, "; ".join(bad[:3]), fn.loc(inside[0]))
+    except AnalysisError as e:
+        raise AnalysisError(f"[C01.4-buffer-split-agreement] processData in-frame branch outside the modelled subset: {e}")
+    end = [n for n in g.stmt_nodes() if n.kind == "test" and isinstance(n.ast, ast.Compare) and len(n.ast.ops) == 1 and isinstance(n.ast.ops[0], ast.Eq) and
+           {norm.text(n.ast.left), norm.text(n.ast.comparators[0])} == {"self.current_frame_masker.pointer()", "self.current_frame.length"}]
     ctx.ob("processData: frame ends exactly when processed octets == declared length", len(end) == 1, "frame-end test changed", fn.loc())
-    lenv = [n for n in g.stmt_nodes() if n.kind == "stmt" and isinstance(n.ast, ast.Assign) and norm.text(n.ast.targets[0]) == "buffered_len"]
-    ctx.ob("processData: buffered_len = len(self.data)", len(lenv) == 1 and norm.text(lenv[0].ast.value) == "len(self.data)", "buffered_len changed", fn.loc())
     # handshake hand-over
     for q in (f"{WSS}.processHandshake", f"{WSC}.processHandshake", f"{WSC}.processProxyConnect"):
         f2 = ctx.program.func(q)
@@ -403,6 +460,46 @@ def rule_buffer_splits(ctx):
         f2 = ctx.program.func(q)
         cs = [c for c in calls_in(f2.node) if self_call(c, "consumeData")]
         ctx.ob(f"{q}: remaining buffered octets are consumed", len(cs) == 1, "consumeData() call for the leftover bytes missing", f2.loc())
+
+
+def rule_prepared(ctx):
+    """A prepared message reaches the peer with its payload and its text/binary type on both of its send paths."""
+    from ..core.flow import bound_arg
+    ctx.rule("C01.8-prepared-message")
+    p = ctx.program
+    fn = p.func(f"{WSP}.sendPreparedMessage")
+    sm = p.func(f"{WSP}.sendMessage")
+    init = p.func("autobahn.websocket.protocol.PreparedMessage.__init__")
+    ctx.analysed(fn, init)
+    pm = fn.params()[1]
+    stored = {}
+    for st in walk_no_defs(init.node):
+        if isinstance(st, ast.Assign) and is_self_attr(st.targets[0]) and isinstance(st.value, ast.Name):
+            stored[st.targets[0].attr] = st.value.id
+    pay = [k for k, v in stored.items() if v == "payload"]
+    binf = [k for k, v in stored.items() if v == "isBinary"]
+    ctx.ob("PreparedMessage keeps the payload and the text/binary flag it was built with", len(pay) == 1 and len(binf) == 1, f"stored fields {stored}", init.loc())
+    calls = [c for c in calls_in(fn.node) if self_call(c, "sendMessage")]
+    ctx.require(len(calls) == 1, "sendPreparedMessage: re-framing through sendMessage not found")
+    c = calls[0]
+    kp, vp = bound_arg(c, sm, "payload")
+    kb, vb = bound_arg(c, sm, "isBinary")
+    ctx.ob("sendPreparedMessage (compressed link): re-framed with the prepared payload", kp == "arg" and pay and norm.text(vp) == f"{pm}.{pay[0]}",
+           f"payload argument {norm.text(vp) if vp is not None else None}", fn.loc(c))
+    ctx.ob("sendPreparedMessage (compressed link): re-framed with the prepared text/binary type", kb == "arg" and binf and norm.text(vb) == f"{pm}.{binf[0]}",
+           f"isBinary is {'the default (text)' if kb != 'arg' else norm.text(vb)}: a binary prepared message arrives as text (and is failed as invalid UTF-8)", fn.loc(c))
+    direct = [c2 for c2 in calls_in(fn.node) if self_call(c2, "sendData")]
+    ctx.ob("sendPreparedMessage (plain link): writes the pre-framed octets once", len(direct) == 1 and norm.text(direct[0].args[0]).startswith(pm + "."),
+           "direct write changed", fn.loc())
+    # the pre-framed first octet carries FIN and the opcode of the type
+    b0 = [st for st in walk_no_defs(init.node) if _is_assign(st, "b0", None)] if False else [st for st in walk_no_defs(init.node) if isinstance(st, ast.Assign) and norm.text(st.targets[0]) == "b0"]
+    if b0:
+        from .common import eval_finite
+        try:
+            arr = eval_finite(p, init, b0[0].value, {"isBinary": np.array([False, True])}, 2)
+            ctx.ob("PreparedMessage: first octet = FIN | opcode 1 (text) / 2 (binary)", [int(x) for x in arr] == [0x81, 0x82], f"first octet {[hex(int(x)) for x in arr]}", init.loc(b0[0]))
+        except AnalysisError:
+            pass
 
 
 def rule_send_queue(ctx, rule_id="C01.5-send-queue-fifo"):
@@ -523,5 +620,6 @@ def run(ctx):
     rule_buffer_splits(ctx)
     rule_send_queue(ctx)
     rule_adapters(ctx)
+    rule_prepared(ctx)
     from .c02 import rule_progress
     rule_progress(ctx, "C01.7-complete-frames-need-no-further-octets")
